@@ -799,6 +799,13 @@ func (x *Exec) step(s *State, fr *Frame, in ssa.Instruction) error {
 		}
 		switch in.Op {
 		case token.MUL: // load
+			if fv, isFV := in.X.(*ssa.FreeVar); isFV && fr.depth == 0 && !storesTo(fr.fn, fv) {
+				// a captured variable the closure never assigns: its value is the one named in the contract
+				if pv, ok := x.params[fv.Name()]; ok && pv.T != nil {
+					fr.vals[in] = Val{T: pv.T, GoT: in.Type()}
+					return nil
+				}
+			}
 			x.curSite = oname("load")[len("load:"):]
 			elem := in.X.Type().Underlying().(*types.Pointer).Elem()
 			lv := x.lvalueOf(a, elem)
@@ -1565,6 +1572,11 @@ func (x *Exec) convert(s *State, v Val, from, to types.Type, hint string) (*Term
 			s.assume(Forall([]*Term{i}, Implies(And(ILe(IntLit(0), i), ILt(i, slLen(v.T))),
 				Eq(App("seq.nth", SInt, r, i), Select(inner, IAdd(slOff(v.T), i)))),
 				[]*Term{App("seq.nth", SInt, r, i)}))
+			if x.sortOf(sl.Elem()) == SInt {
+				// the same abstraction the contracts use for str(bytes): a function of (backing array, offset, length)
+				x.eng.reg.AddFun("seq$of", []string{SArr(SInt, SInt), SInt, SInt}, SStr)
+				s.assume(Eq(r, App("seq$of", SStr, inner, slOff(v.T), slLen(v.T))))
+			}
 			return r, nil
 		}
 		if fInt {
@@ -1892,4 +1904,30 @@ func (x *Exec) runDefers(s *State, k func(*State)) {
 	x.doCallWith(s, d.pos, d.call, d.args, d.fn, func(s2 *State, _ Val) {
 		x.runDefers(s2, k)
 	})
+}
+
+// storesTo reports whether fn contains a store to (or takes a derived address of) value v.
+func storesTo(fn *ssa.Function, v ssa.Value) bool {
+	for _, b := range fn.Blocks {
+		for _, in := range b.Instrs {
+			if st, ok := in.(*ssa.Store); ok && st.Addr == v {
+				return true
+			}
+			if c, ok := in.(ssa.CallInstruction); ok {
+				for _, a := range c.Common().Args {
+					if a == v {
+						return true
+					}
+				}
+			}
+			if mc, ok := in.(*ssa.MakeClosure); ok {
+				for _, bnd := range mc.Bindings {
+					if bnd == v {
+						return true
+					}
+				}
+			}
+		}
+	}
+	return false
 }
